@@ -60,12 +60,12 @@ def main():
     c = Check("C02", a.tier, a.seed)
     if a.replay:
         r = json.load(open(a.replay)); c.seed, c.tier = r["seed"], r["tier"]
-    ok_mk, log = c.make(["Props/C02.vo", "Model/C02Run.vo"])
+    ok_mk, log = c.make(["Props/C02.vo", "Model/C02Run.vo", "Model/C08Run.vo"])
     thms = theorems_of("Props/C02.v")
     assumptions = c.audit("Props.C02", thms) if ok_mk and thms else {}
     binary = c.build_harness("release")
     casefile = os.path.join(c.work, "cases.txt")
-    st, fails, total, mism = None, [], (0, 0), []
+    st, fails, total, mism, ptotal = None, [], (0, 0), [], (0, 0)
     if binary and c.run_harness(binary, "c02", casefile, timeout=20000):
         st, fails = scan(casefile)
         if ok_mk:
@@ -75,6 +75,12 @@ def main():
                 if mism:
                     c.broken.append("Model/Permutation.v check_partial_products disagrees with the implementation on %d cases, first: %s"
                                     % (total[1], mism[0][:300]))
+                # the adversarial proofs dumped as `plonkverify` lines must get the same verdict from the Gallina verifier
+                if '"plonk"' in open(os.path.join(EXTRACT, "main.ml")).read():
+                    _, pmism, ptotal = c.run_model(cli, "plonk", casefile)
+                    if pmism:
+                        c.broken.append("Gallina verifier (Model/Plonk.v) and data.verify disagree on %d adversarial proofs, first: %s"
+                                        % (ptotal[1], pmism[0][:200]))
     if a.replay:
         want = json.load(open(a.replay))["case"]
         hit = [f for f in fails if all(f.get(k) == want.get(k) for k in ("op", "program", "config", "class", "strategy"))]
@@ -99,6 +105,7 @@ def main():
         "evaluations": st["cases"] + st["honest"] + st["knob"], "distinct_nontrivial": len(st["dist"]),
         "check_partial_products_correspondence_cases": total[0], "check_partial_products_mismatches": total[1],
         "check_partial_products_oracle_cases": st["cpp"],
+        "adversarial_proofs_replayed_by_gallina_verifier": ptotal[0], "gallina_verifier_disagreements": ptotal[1],
         "obligations": len(thms), "discharged": len([t for t in thms if assumptions.get(t, "").startswith("Closed")]),
         "theorems": {t: assumptions.get(t, "not checked") for t in thms},
         "rule": "DSL programs (all gadget families) x configurations (incl. quotient degree factors 7 and 12 where the prover's divisibility "
@@ -108,6 +115,6 @@ def main():
                 "z-first, quotient-perturb, lenient-trim, pow-override (+ sldc-shift on lookups); distinct = (class, strategy) pairs",
     }
     c.finish("translation_validation", coverage, [
-        "the end-to-end statement is decided on generated cases by the implementation's own verifier; the Gallina verifier replay of the adversarial proofs is not part of this check",
+        "the end-to-end statement is decided on generated cases by the implementation's own verifier; a sample of the adversarial proofs is replayed by the Gallina verifier (Model/Plonk.v), which must give the same verdict",
         "kernel theorems (telescoping of the chunked partial products incl. wrap-around, completeness of the prover's accumulator, alpha-combination and zeta root bounds) are proved on the model; their composition with FRI proximity and the random oracle is not formalised",
         "an error or panic of the proving API counts as 'no accepted proof'"])
